@@ -57,7 +57,7 @@ var c20Args = []akind{
 	{"number", "7"}, {"fraction", "2.5"}, {"int", "$count([1,2,3])"}, {"string", `"str"`}, {"boolean", "true"},
 	{"array", `[1,"a"]`}, {"object", `{"k":1}`}, {"function", "$sum"}, {"missing", "nothing"}, {"big", "300"},
 	// a function that went through a library function and is held by value
-	{"function-by-value", "$distinct([$sum])[0]"},
+	{"function-by-value", "$single($sum, function($f){true})"},
 	// an array as a library function builds it (a []string)
 	{"library-array", `$split("p,q", ",")`},
 }
